@@ -921,6 +921,10 @@ class EqCongurentPredMacro(Macro):
         else:
             preds_pair = [(preds[0].arg.lhs, preds[0].arg.rhs), (preds[0].arg.lhs, preds[0].arg.rhs)]
 
+        # Every pair of arguments must be justified by one of the equalities
+        if len(args_pair) > len(preds_pair):
+            raise VeriTException("eq_congruent_pred", "unexpected goal")
+
         for arg, pred in zip(args_pair, preds_pair):
             if arg == pred:
                 continue
